@@ -1,0 +1,79 @@
+//go:build verif
+
+package geometry
+
+// Contracts for the deductive checks in /verif (comment-only; compiled only with -tags verif).
+// Property C17: "Axis-aligned boxes grown to encapsulate points or boxes contain them, and
+// closest-point results lie in the box."
+
+//@ func NewAABB pure
+//@   props C17
+//@ func NewEmptyAABB pure
+//@   props C17
+//@ func AABB.Center pure
+//@   props C17
+//@ func AABB.Min pure
+//@   props C17
+//@ func AABB.Max pure
+//@   props C17
+//@ func AABB.Size pure
+//@   props C17
+//@ func minVector pure
+//@   props C17
+//@ func maxVector pure
+//@   props C17
+//@ func clamp pure
+//@   props C17
+
+//@ spec leq3(a vector3.Float64, b vector3.Float64) bool = a.X() <= b.X() && a.Y() <= b.Y() && a.Z() <= b.Z()
+//@ spec inBox(b AABB, p vector3.Float64) bool = leq3(b.Min(), p) && leq3(p, b.Max())
+//@ spec validBox(b AABB) bool = b.extents.X() >= 0 && b.extents.Y() >= 0 && b.extents.Z() >= 0
+
+// Contains is exactly the componentwise test (so inBox can stand for it in the other contracts).
+//@ func AABB.Contains pure
+//@   props C17
+//@   ensures componentwise: result == inBox(aabb, p)
+
+//@ func AABB.SetMinMax
+//@   props C17
+//@   modifies aabb
+//@   ensures min_is_min: aabb.Min() == min
+//@   ensures max_is_max: aabb.Max().X() == max.X() && aabb.Max().Y() == max.Y() && aabb.Max().Z() == max.Z()
+
+//@ func AABB.EncapsulatePoint
+//@   props C17
+//@   modifies aabb
+//@   ensures contains_point: inBox(aabb, p)
+//@   ensures grows_min: leq3(aabb.Min(), old(aabb.Min()))
+//@   ensures grows_max: leq3(old(aabb.Max()), aabb.Max())
+
+//@ func AABB.EncapsulateBounds
+//@   props C17
+//@   modifies aabb
+//@   ensures contains_min: inBox(aabb, b.Min())
+//@   ensures contains_max: inBox(aabb, b.Max())
+//@   ensures grows_min: leq3(aabb.Min(), old(aabb.Min()))
+//@   ensures grows_max: leq3(old(aabb.Max()), aabb.Max())
+
+//@ func AABB.ClosestPoint
+//@   props C17
+//@   requires validBox(aabb)
+//@   returns r
+//@   ensures in_box: inBox(aabb, r)
+//@   ensures fixed_inside: inBox(aabb, v) ==> r == v
+//@   ensures closest_x: forall q vector3.Float64 :: inBox(aabb, q) ==> abs(r.X() - v.X()) <= abs(q.X() - v.X())
+//@   ensures closest_y: forall q vector3.Float64 :: inBox(aabb, q) ==> abs(r.Y() - v.Y()) <= abs(q.Y() - v.Y())
+//@   ensures closest_z: forall q vector3.Float64 :: inBox(aabb, q) ==> abs(r.Z() - v.Z()) <= abs(q.Z() - v.Z())
+
+//@ spec finite3(p vector3.Float64) bool = negInf < p.X() && p.X() < posInf && negInf < p.Y() && p.Y() < posInf && negInf < p.Z() && p.Z() < posInf
+
+//@ func NewAABBFromPoints
+//@   props C17
+//@   requires len(points) >= 1
+//@   requires finite: forall k int :: 0 <= k && k < len(points) ==> finite3(points[k])
+//@   returns r
+//@   ensures contains_all: forall k int :: 0 <= k && k < len(points) ==> inBox(r, points[k])
+//@   loop 1:
+//@     invariant bounds: 0 <= $i && $i <= len(points)
+//@     invariant start: $i == 0 ==> min == vector3.New(posInf, posInf, posInf) && max == vector3.New(negInf, negInf, negInf)
+//@     invariant covered: forall k int :: 0 <= k && k < $i ==> leq3(min, points[k]) && leq3(points[k], max)
